@@ -95,9 +95,9 @@ P.update({
          TB_MARKER + "; packaging.markers as the reference of the oracle", "machine-checked proof in Coq over a hand model + correspondence + differential oracle against packaging for atom evaluation", "5"),
  "C12": ("proof", "Proved over Model/Marker.v (all fuels / set orders / merge oracles): C12_only_vars - m.only(names) mentions no variable outside names; C12_exclude_vars - m.exclude(name) (and without_extras()) never mentions name; both at any "
          "nesting depth and for any input, by an invariant carried through all nine mutually recursive functions of the normaliser (hypothesis: a merged version atom mentions only the variables of the atoms merged - checked on every row the code produces); "
-         "C12_only_implied / C12_only_identity: m.only(names) is implied by m in every environment and equals m in meaning when m mentions only those names. NOT proved, decided by the direct oracle only: exclude() leaves the meaning unchanged when m does not "
-         "mention the variable (MultiMarker.exclude drops a conjunct whose exclusion is <empty>, so the identity needs a normal-form argument about the input). Quick: cone + S-mark (only/exclude results compared structurally) + oracle on ~250 markers x subsets x environment grids.",
-         TB_MARKER, "machine-checked proof in Coq (variable containment, implication, identity for only()) + correspondence + property oracle (exclude identity)", "5"),
+         "C12_only_implied / C12_only_identity: m.only(names) is implied by m in every environment and equals m in meaning when m mentions only those names. C12_exclude_identity: m.exclude(name) leaves the meaning unchanged when m does not mention name, for markers without a contradictory conjunct or an empty disjunction "
+         "(`alive`: what the normal form gives; without it the statement is false in the model as in the code, because MultiMarker.exclude drops a conjunct whose exclusion is <empty>) - the direct oracle checks the identity on every generated marker. Quick: cone + S-mark (only/exclude results compared structurally) + oracle on ~250 markers x subsets x environment grids.",
+         TB_MARKER, "machine-checked proof in Coq (variable containment, implication and identity for only(), identity for exclude() on alive markers) + correspondence + property oracle", "5"),
 })
 P["C14"] = ("proof", "Specifier part: 13 laws + complement as `==` of the returned objects, each an instance of the closure/uniqueness theorems over the regenerated model. Marker part: C14m_closure / C14m_law over Model/Marker.v: every &,| expression "
             "over markers evaluates as the Boolean combination of its leaves, so both sides of ANY Boolean identity (all the lattice laws the property names) yield markers with the same meaning in every environment (equivalence, as the property asks; "
